@@ -10,22 +10,36 @@ use alice_protocol_reader::cdp_wrapper::cdp_array::CdpArray;
 use alice_protocol_reader::prelude::{RdhCru, SerdeRdh, RDH};
 
 const CAPN: usize = 160;
-struct Sink {
+struct SinkC {
     magic: u64,
-    out: [u8; CAPN],
     len: usize,
     n_writes: usize,
 }
-/// one static with unique initial bytes: see the note at `VState` in vsup.rs (a plain
-/// `static mut N_WRITES: usize = 0` was picked by Kani as the backing store of `RawVec`'s `Cap::ZERO`)
-static mut SINK: Sink = Sink { magic: 0x5645_5249_465F_534B, out: [0; CAPN], len: 0, n_writes: 0 };
+/// statics with unique initial bytes: see the note at `VState` in vsup.rs (a plain
+/// `static mut N_WRITES: usize = 0` was picked by Kani as the backing store of `RawVec`'s `Cap::ZERO`).
+/// The byte sink is a static of its own (inside a struct every write was a whole-struct update: 7x the formula);
+/// its initial bytes are a pattern no constant has.
+static mut SINK: SinkC = SinkC { magic: 0x5645_5249_465F_534B, len: 0, n_writes: 0 };
+const fn sink_init() -> [u8; CAPN] {
+    let mut a = [0xEEu8; CAPN];
+    a[0] = 0x56;
+    a[1] = 0x45;
+    a[2] = 0x52;
+    a[3] = 0x49;
+    a[4] = 0x46;
+    a[5] = 0x5F;
+    a[6] = 0x4F;
+    a[7] = 0x55;
+    a
+}
+static mut SINK_OUT: [u8; CAPN] = sink_init();
 
 /// stub for `<std::io::Stdout as std::io::Write>::write_all` (the sink used when no file is configured)
 fn sink_write_all(_s: &mut std::io::Stdout, buf: &[u8]) -> std::io::Result<()> {
     unsafe {
         let n = buf.len();
         assert!(SINK.len + n <= CAPN);
-        SINK.out[SINK.len..SINK.len + n].copy_from_slice(buf);
+        SINK_OUT[SINK.len..SINK.len + n].copy_from_slice(buf);
         SINK.len += n;
         SINK.n_writes += 1;
     }
@@ -64,14 +78,37 @@ fn same8(a: &[u8], b: &[u8; 8]) -> bool {
     a.len() == 8 && w64(a, 0) == w64(&b[..], 0)
 }
 
+/// minimal I/O configuration for `BufferedWriter::new`: no output path => the stdout sink
+struct WCfg {
+    out: Option<std::path::PathBuf>,
+}
+impl crate::config::inputoutput::InputOutputOpt for WCfg {
+    fn input_file(&self) -> Option<&std::path::Path> {
+        None
+    }
+    fn output(&self) -> Option<&std::path::Path> {
+        self.out.as_deref()
+    }
+    fn output_mode(&self) -> crate::config::inputoutput::DataOutputMode {
+        crate::config::inputoutput::DataOutputMode::None
+    }
+    fn stats_output_mode(&self) -> crate::config::inputoutput::DataOutputMode {
+        crate::config::inputoutput::DataOutputMode::None
+    }
+    fn stats_output_format(&self) -> Option<crate::config::inputoutput::DataOutputFormat> {
+        None
+    }
+    fn input_stats_file(&self) -> Option<&std::path::Path> {
+        None
+    }
+}
+
+/// the writer is built by its own constructor (a struct literal would break on every added field)
 #[cfg(not(feature = "verif_native"))]
 fn new_writer(max: usize) -> BufferedWriter<RdhCru> {
-    BufferedWriter::<RdhCru> {
-        filtered_rdhs_buffer: Vec::with_capacity(4),
-        filtered_payload_buffers: Vec::with_capacity(4),
-        buf_writer: None,
-        max_buffer_size: max,
-    }
+    let w = BufferedWriter::<RdhCru>::new(&WCfg { out: None }, max);
+    assert!(w.buf_writer.is_none());
+    w
 }
 
 /// under Kani the sink is the stubbed stdout and already holds everything
@@ -91,17 +128,11 @@ fn native_path() -> std::path::PathBuf {
 /// native replay: no stub is active, the sink is a real file that is read back
 #[cfg(feature = "verif_native")]
 fn new_writer(max: usize) -> BufferedWriter<RdhCru> {
-    let f = fs::File::create(native_path()).unwrap();
     unsafe {
         SINK.len = 0;
         SINK.n_writes = 0;
     }
-    BufferedWriter::<RdhCru> {
-        filtered_rdhs_buffer: Vec::with_capacity(4),
-        filtered_payload_buffers: Vec::with_capacity(4),
-        buf_writer: Some(io::BufWriter::new(f)),
-        max_buffer_size: max,
-    }
+    BufferedWriter::<RdhCru>::new(&WCfg { out: Some(native_path()) }, max)
 }
 
 #[cfg(feature = "verif_native")]
@@ -110,7 +141,7 @@ fn sync_sink(w: &mut BufferedWriter<RdhCru>) {
     let d = fs::read(native_path()).unwrap();
     unsafe {
         assert!(d.len() <= CAPN);
-        SINK.out[..d.len()].copy_from_slice(&d);
+        SINK_OUT[..d.len()].copy_from_slice(&d);
         SINK.len = d.len();
     }
 }
@@ -157,7 +188,7 @@ fn one(h: &[u8; 64], p: &[u8; 8]) -> CdpArray<RdhCru, 1> {
     a
 }
 
-//@ harness: c08_writer_one props=C08 tier=quick class=functional covers=1 mem=24 timeout=1500 est=300 args=-Z,restrict-vtable
+//@ harness: c08_writer_one props=C08 tier=quick class=functional covers=1 mem=28 timeout=1500 est=300 args=-Z,restrict-vtable
 //@ bounds: BufferedWriter, sink = stdout (stubbed write_all): one batch of one packet (header: concrete pattern with bytes 8..16 symbolic; payload of 8 symbolic bytes), explicit flush, then a second flush with nothing new: the sink receives exactly rdh|payload (byte for byte) ONCE
 #[kani::proof]
 #[kani::unwind(4)]
@@ -182,8 +213,8 @@ fn c08_writer_one() {
     finish(w);
     unsafe {
         assert!(SINK.len == 72, "a flush with nothing new to write wrote something (duplicated output)");
-        assert!(same64(&SINK.out[0..64], &h0), "header altered");
-        assert!(same8(&SINK.out[64..72], &p0), "payload altered");
+        assert!(same64(&SINK_OUT[0..64], &h0), "header altered");
+        assert!(same8(&SINK_OUT[64..72], &p0), "payload altered");
         kani::cover!(SINK.n_writes >= 1 || cfg!(feature = "verif_native"), "written");
     }
 }
@@ -206,8 +237,8 @@ fn c08_writer_one_full() {
     finish(w);
     unsafe {
         assert!(SINK.len == 72, "sink received a wrong number of bytes");
-        assert!(same64(&SINK.out[0..64], &h0), "header altered");
-        assert!(same8(&SINK.out[64..72], &p0), "payload altered");
+        assert!(same64(&SINK_OUT[0..64], &h0), "header altered");
+        assert!(same8(&SINK_OUT[64..72], &p0), "payload altered");
         kani::cover!(SINK.n_writes == 1 || cfg!(feature = "verif_native"), "one write");
     }
 }
@@ -241,10 +272,39 @@ fn c08_writer_two_flushes() {
     finish(w);
     unsafe {
         assert!(SINK.len == 144, "sink received a wrong number of bytes (lost or duplicated packets)");
-        assert!(same64(&SINK.out[0..64], &h0), "first header altered");
-        assert!(same8(&SINK.out[64..72], &p0), "first payload altered");
-        assert!(same64(&SINK.out[72..136], &h1), "second header altered");
-        assert!(same8(&SINK.out[136..144], &p1), "second payload altered");
+        assert!(same64(&SINK_OUT[0..64], &h0), "first header altered");
+        assert!(same8(&SINK_OUT[64..72], &p0), "first payload altered");
+        assert!(same64(&SINK_OUT[72..136], &h1), "second header altered");
+        assert!(same8(&SINK_OUT[136..144], &p1), "second payload altered");
         kani::cover!(SINK.n_writes == 2 || cfg!(feature = "verif_native"), "two writes");
+    }
+}
+
+//@ harness: c08_writer_flush_twice_concrete props=C08 tier=quick class=functional covers=1 mem=16 timeout=900 est=60 args=-Z,restrict-vtable
+//@ bounds: BufferedWriter, one CONCRETE packet pushed, flush, then a second flush with nothing new: the sink receives 72 bytes by the first flush and nothing by the second (byte counts only, cheap enough to stay decidable when the writer gains state; contents are c08_writer_one's part)
+#[kani::proof]
+#[kani::unwind(4)]
+#[kani::stub(<std::io::Stdout as std::io::Write>::write_all, sink_write_all)]
+#[kani::stub(std::io::stdout, sink_stdout)]
+#[kani::stub(alloc::fmt::format, crate::vsup::stub_format)]
+fn c08_writer_flush_twice_concrete() {
+    let h0 = H_A;
+    let p0: [u8; 8] = [0xA0, 0xA1, 0xA2, 0xA3, 0xA4, 0xA5, 0xA6, 0xA7];
+    let mut w = new_writer(10);
+    w.push_cdp_arr(one(&h0, &p0));
+    let r = w.flush();
+    assert!(r.is_ok());
+    core::mem::forget(r);
+    sync_sink(&mut w);
+    unsafe {
+        assert!(SINK.len == 72, "sink received a wrong number of bytes");
+    }
+    let r = w.flush();
+    assert!(r.is_ok());
+    core::mem::forget(r);
+    finish(w);
+    unsafe {
+        assert!(SINK.len == 72, "a flush with nothing new to write wrote something (duplicated output)");
+        kani::cover!(SINK.n_writes >= 1 || cfg!(feature = "verif_native"), "written");
     }
 }
